@@ -24,7 +24,8 @@ macro_rules! __array_map {
         |$i:ident| $get_input:expr,
         ($($pattern:tt)*) $(-> $ret:ty)? $mapper:block $(,)?
     ) => ({
-        let len = $array.len();
+        // not `$array.len()`: method syntax on an array also finds `len` methods of user traits
+        let len = $crate::__::array_len(&$array);
         let mut out = $crate::__::uninit_array_of_len(&$array);
 
         let mut $i = 0usize;
@@ -96,6 +97,11 @@ pub const fn assert_array<T, const N: usize>(array: &[T; N]) -> &[T; N] {
 #[inline(always)]
 pub const fn uninit_array_of_len<T, U, const N: usize>(_input: &[T; N]) -> [MaybeUninit<U>; N] {
     crate::maybe_uninit::uninit_array()
+}
+
+#[inline(always)]
+pub const fn array_len<T, const N: usize>(_input: &[T; N]) -> usize {
+    N
 }
 
 #[inline(always)]
